@@ -13,6 +13,7 @@ from concurrent.futures import ThreadPoolExecutor
 V = os.path.dirname(os.path.dirname(os.path.abspath(__file__)))
 REPO = os.environ.get('SONIC_REPO', '/repo')
 PROPS = ['C%02d' % i for i in range(1, 21)]
+ALL = []
 
 
 def run_one(patch, props):
@@ -47,6 +48,7 @@ def main():
     ap.add_argument('--prop')
     ap.add_argument('--only')
     ap.add_argument('-j', type=int, default=6)
+    ap.add_argument('--json')
     a = ap.parse_args()
     patches = sorted(glob.glob(os.path.join(V, 'selftest', 'refactors', '*.patch')))
     if a.only:
@@ -56,10 +58,14 @@ def main():
     with ThreadPoolExecutor(max_workers=a.j) as ex:
         for res in ex.map(lambda p: run_one(p, props), patches):
             for name, pr, what, detail in res:
+                ALL.append(dict(patch=name, prop=pr, result=what, detail=detail))
                 print('%-22s %-4s %-16s %s' % (name, pr, what, detail))
                 if what == 'FALSE-ALARM':
                     alarms += 1
     print('%d patches, %d false alarms' % (len(patches), alarms))
+    if a.json:
+        import json
+        json.dump(dict(patches=len(patches), false_alarms=alarms, results=ALL), open(a.json, 'w'))
     sys.exit(1 if alarms else 0)
 
 
